@@ -43,7 +43,8 @@ def native_concat(values: t.Iterable[t.Any]) -> t.Any | None:
             # parse the string ourselves without removing leading spaces/tabs.
             parse(raw, mode="eval")
         )
-    except (ValueError, SyntaxError, MemoryError):
+    except (ValueError, SyntaxError, MemoryError, TypeError, RecursionError):
+        # TypeError: an unhashable set item or dict key, ``{[1]: 2}``.
         return raw
 
 
@@ -65,6 +66,10 @@ class NativeCodeGenerator(CodeGenerator):
         const = node.as_const(frame.eval_ctx)
 
         if not has_safe_repr(const):
+            raise nodes.Impossible()
+
+        if isinstance(const, (float, complex)) and const - const != 0:
+            # The text of inf and nan can't be parsed back to the value.
             raise nodes.Impossible()
 
         if isinstance(node, nodes.TemplateData):
